@@ -201,6 +201,7 @@ class Path:
         self.ret = None
         self.ret_inst = None
         self.edge_count = {}
+        self.back_mark = {}
         self.escaped = set()    # alloca names whose address escaped
         self.rstores = {}       # root -> tuple of (off, size, var) stores seen on this path
         self.known = {}         # branch condition expr -> value decided earlier on this path
@@ -218,6 +219,7 @@ class Path:
         p.conds = list(self.conds)
         p.blocks = list(self.blocks)
         p.edge_count = dict(self.edge_count)
+        p.back_mark = dict(self.back_mark)
         p.escaped = set(self.escaped)
         p.rstores = dict(self.rstores)
         p.known = dict(self.known)
@@ -517,11 +519,20 @@ def pure_functions(module):
     return out
 
 
-def enumerate_paths(fn, module, loop_bound=1, max_paths=MAX_PATHS, call_effects=None):
-    """All paths from entry to a return/unreachable, each back edge at most loop_bound times.
+def enumerate_paths(fn, module, loop_bound=None, max_paths=MAX_PATHS, call_effects=None):
+    """All paths from entry to a return/unreachable.
+
+    loop_bound=None (default, strict): the function must be loop-free up to loops whose conditions fold to constants on
+    every iteration (those are unrolled completely, at most 64 iterations); any other loop raises AnalysisError, so a rule
+    written for straight-line code never silently sees a truncated loop.
+    loop_bound=k (explicit): each back edge at most k times; paths that would go round again are DROPPED - only for rules
+    that know they are looking at a loop and treat the paths as segments.
 
     Infeasible paths are pruned only when a branch condition folds to a constant.
     """
+    strict = loop_bound is None
+    if strict:
+        loop_bound = 64
     out = []
     dom = fn.dom()
     eff = dict(pure_functions(module))
@@ -571,11 +582,18 @@ def enumerate_paths(fn, module, loop_bound=1, max_paths=MAX_PATHS, call_effects=
             for k, (s, cond) in enumerate(nxt):
                 if is_back(blk, s):
                     n = path.edge_count.get((blk.name, s.name), 0)
+                    if strict and n >= 1 and len(path.conds) + (1 if cond else 0) > path.back_mark.get((blk.name, s.name), 0):
+                        raise AnalysisError("%s contains a loop whose condition depends on run-time values (at %s): "
+                                            "straight-line path rules do not apply" % (fn.name, t.loc))
                     if n >= loop_bound:
+                        if strict:
+                            raise AnalysisError("%s: loop at %s not unrolled within %d iterations" % (fn.name, t.loc, loop_bound))
                         continue
                 p2 = path.clone() if k < len(nxt) - 1 else path
                 if is_back(blk, s):
                     p2.edge_count[(blk.name, s.name)] = p2.edge_count.get((blk.name, s.name), 0) + 1
+                    if (blk.name, s.name) not in p2.back_mark:
+                        p2.back_mark[(blk.name, s.name)] = len(p2.conds) + (1 if cond else 0)
                 if cond:
                     p2.conds.append(cond)
                     p2.cond_pos.append(len(p2.events))
@@ -595,6 +613,9 @@ def enumerate_paths(fn, module, loop_bound=1, max_paths=MAX_PATHS, call_effects=
             for k, (s, cond) in enumerate(targets):
                 if is_back(blk, s):
                     n = path.edge_count.get((blk.name, s.name), 0)
+                    if strict and (n >= 1 or n >= loop_bound):
+                        raise AnalysisError("%s contains a loop closed by a switch (at %s): straight-line path rules do not apply"
+                                            % (fn.name, t.loc))
                     if n >= loop_bound:
                         continue
                 p2 = path.clone()
